@@ -207,10 +207,20 @@ def _evaluate_all(spec, cases):
     n = getattr(spec, 'PARALLEL', 0)
     if not n or len(cases) < 64:
         return [_eval_one(c) for c in cases]
-    import multiprocessing as mp
+    # ProcessPoolExecutor, not multiprocessing.Pool: when a worker is killed from outside (the kernel's OOM killer did
+    # that once) Pool.map waits for ever, whereas the executor raises BrokenProcessPool -- then fewer workers, then none
+    from concurrent.futures import ProcessPoolExecutor
+    from concurrent.futures.process import BrokenProcessPool
     ctx = mp.get_context('fork')
-    with ctx.Pool(min(n, os.cpu_count() or 1), initializer=_die_with_parent) as pool:
-        return pool.map(_eval_one, cases, chunksize=max(1, len(cases) // (n * 8)))
+    workers = min(n, os.cpu_count() or 1)
+    while workers >= 2:
+        try:
+            with ProcessPoolExecutor(workers, mp_context=ctx, initializer=_die_with_parent) as pool:
+                return list(pool.map(_eval_one, cases, chunksize=max(1, len(cases) // (workers * 8))))
+        except BrokenProcessPool:
+            print(f'INFO: a worker process died (killed from outside?); retrying with {workers // 4} workers', flush=True)
+            workers //= 4
+    return [_eval_one(c) for c in cases]
 
 
 def _first_error(log):
